@@ -197,7 +197,11 @@ def op_model(node, env=None, plain=False):
         f = _clip(node[1], node[2])
         return lambda xs: [(i, f(v)) for i, v in enumerate(xs)]
     if name == 'fill_none':
-        return lambda xs: [(i, node[1] if v is None else v) for i, v in enumerate(xs)]
+        def fill(v):
+            if isinstance(v, tuple) and hasattr(v, '_fields'):
+                return v._replace(**{f: node[1] for f in v._fields if getattr(v, f) is None})
+            return node[1] if v is None else v
+        return lambda xs: [(i, fill(v)) for i, v in enumerate(xs)]
     if name == 'batch':
         return _batch(node[1])
     if name in ('identity', 'do_action', 'assert_', 'assert_1', 'progress', 'ignore', 'error_map', 'route'):
